@@ -27,6 +27,9 @@ pub struct Fault {
     pub index: u32,
     /// "ENOMEM" | "EAGAIN"
     pub errno: String,
+    /// the call fails this time and every time after (strace `when=K+`): a limit that does not go away
+    #[serde(default)]
+    pub persistent: bool,
 }
 
 #[derive(Debug, Clone, Serialize, Deserialize, PartialEq, Eq, Hash)]
@@ -137,7 +140,7 @@ fn execute(env: &Env, case: &Case) -> Outcome {
             env.startup_mmaps(&case.build).map(|s| s + f.index + 1)
         };
         match when {
-            Some(w) => inj = Some(Injection { syscall: if f.target == "clone" { "clone" } else { "mmap" }, errno: errno_name(&f.errno), when: w }),
+            Some(w) => inj = Some(Injection { syscall: if f.target == "clone" { "clone" } else { "mmap" }, errno: errno_name(&f.errno), when: w, persistent: f.persistent }),
             None => return Outcome { hello: Hello::default(), reports: vec![], end: End::Infra("dry strace run failed".into()), log: None },
         }
     }
@@ -163,7 +166,9 @@ fn execute(env: &Env, case: &Case) -> Outcome {
             end = End::Died { exit, stderr: p.stderr_text(), batch: bi };
             break;
         }
-        match p.read_record(Duration::from_secs(60)) {
+        // a failure that stays: nothing in the batch can take long (no thread gets created from the failing spawn on)
+        let limit = if case.fault.as_ref().map(|f| f.persistent).unwrap_or(false) { 12 } else { 60 };
+        match p.read_record(Duration::from_secs(limit)) {
             Rec::Data(d) => match parse_report(&d) {
                 Some(r) if r.n == b.specs.len() => reports.push(r),
                 _ => {
@@ -227,8 +232,15 @@ fn injected_call(log: &strace::Log, fault: &Fault) -> Result<Option<u32>, String
     if hits.is_empty() {
         return Ok(None);
     }
-    if hits.len() > 1 {
+    if hits.len() > 1 && !fault.persistent {
         return Err(format!("{} calls injected", hits.len()));
+    }
+    if fault.persistent {
+        // all on the main thread, all of the intended kind, the first at the intended index
+        hits.sort_by_key(|h| h.3);
+        if hits.iter().any(|h| h.0 != log.first_tid || if fault.target == "clone" { h.1 != "clone" } else { !(h.1 == "mmap" && h.2) }) {
+            return Err("persistent injection hit something else than intended".into());
+        }
     }
     let (tid, name, is_stack, ord) = hits.remove(0);
     if tid != log.first_tid {
@@ -262,6 +274,12 @@ fn judge_end(env: &Env, case: &Case, out: &Outcome, injected: Option<u32>, fails
             rep.class("inconclusive-infrastructure");
             false
         }
+        End::Timeout if persistent_clone_storm(case, out).is_some() => {
+            let (n, fl) = (persistent_clone_storm(case, out).unwrap(), case.fault.as_ref().unwrap());
+            let specs: usize = case.batches.iter().map(|b| b.specs.len()).sum();
+            fails.push(f("spawn|never returns|keeps calling clone while clone keeps failing", format!("clone made to fail with {} from call #{} on (strace injection `when={}+`, a limit that does not go away) on {}: the probe did not come back from a batch of spawns within 12 s and called clone {n} times for {specs} spawn calls in all -- spawn neither returns an error nor a handle; expected: Err from every spawn from #{} on", fl.errno, fl.index, fl.index + 1, case.build, fl.index)));
+            true
+        }
         End::Timeout => {
             env.ctx.inconclusive();
             rep.class("inconclusive-time-limit");
@@ -292,6 +310,19 @@ fn judge_end(env: &Env, case: &Case, out: &Outcome, injected: Option<u32>, fails
     }
 }
 
+/// Some(number of failed clone calls) when the run timed out under a persistent clone failure and the strace log
+/// shows far more injected clone failures than there are spawn calls in the whole case: spawn is looping on clone.
+fn persistent_clone_storm(case: &Case, out: &Outcome) -> Option<usize> {
+    let fl = case.fault.as_ref()?;
+    if !(fl.persistent && fl.target == "clone") {
+        return None;
+    }
+    let log = out.log.as_ref()?;
+    let n = log.per_tid.get(&log.first_tid)?.iter().filter(|e| e.name == "clone" && e.injected()).count();
+    let specs: usize = case.batches.iter().map(|b| b.specs.len()).sum();
+    (n > specs * 3 + 20).then_some(n)
+}
+
 fn judge_c05(env: &Env, case: &Case, out: &Outcome, injected: Option<u32>, fails: &mut Vec<Failure>, rep: &mut CaseReport) {
     let mut spawn_no = 0u32; // index of the spawn call over the whole run
     let mut joined_tids: Vec<u32> = Vec::new();
@@ -303,11 +334,13 @@ fn judge_c05(env: &Env, case: &Case, out: &Outcome, injected: Option<u32>, fails
         }
         let mut nonunit_joined = false;
         for (i, (s, sr)) in b.specs.iter().zip(r.specs.iter()).enumerate() {
-            let faulted = injected == Some(spawn_no);
+            let persistent = case.fault.as_ref().map(|x| x.persistent).unwrap_or(false);
+            let faulted = injected == Some(spawn_no) || (persistent && injected.map(|k| spawn_no > k).unwrap_or(false));
             spawn_no += 1;
             let ctxt = format!("batch {bi} spec {i} ({}) on {}", spec_text(s), case.build);
             if faulted {
                 let fl = case.fault.as_ref().unwrap();
+                rep.class_if(persistent, "failure-that-stays");
                 if sr.spawn_errno != 0 {
                     rep.class(if fl.target == "clone" { "clone-failure-spawn-err" } else { "stack-mmap-failure-spawn-err" });
                     if sr.run != 0 {
@@ -846,7 +879,7 @@ fn case_strategy(c06: bool, builds: Vec<&'static str>, strace: bool, max_batches
 
 fn fault_case_strategy(builds: Vec<&'static str>) -> impl Strategy<Value = Case> {
     let nb = builds.len();
-    (0..nb, prop::collection::vec(prop::collection::vec(spec_strategy(false), 1..=8).prop_map(|specs| Batch { specs }), 1..=2), 0u32..3, any::<u16>()).prop_map(move |(bi, batches, kind, pick)| {
+    (0..nb, prop::collection::vec(prop::collection::vec(spec_strategy(false), 1..=8).prop_map(|specs| Batch { specs }), 1..=2), 0u32..3, any::<u16>(), prop::bool::weighted(0.25)).prop_map(move |(bi, batches, kind, pick, persistent)| {
         let total: usize = batches.iter().map(|b| b.specs.len()).sum();
         let index = (pick as usize * total >> 16) as u32;
         let (target, errno) = match kind {
@@ -854,7 +887,7 @@ fn fault_case_strategy(builds: Vec<&'static str>) -> impl Strategy<Value = Case>
             1 => ("clone", "EAGAIN"),
             _ => ("clone", "ENOMEM"),
         };
-        Case { build: builds[bi].to_string(), strace: true, fault: Some(Fault { target: target.into(), index, errno: errno.into() }), batches }
+        Case { build: builds[bi].to_string(), strace: true, fault: Some(Fault { target: target.into(), index, errno: errno.into(), persistent }), batches }
     })
 }
 
@@ -1134,7 +1167,11 @@ pub fn run(ctx: &Ctx) {
             for b in &fixed {
                 for idx in 0..b.specs.len() as u32 {
                     for (t, e) in [("clone", "EAGAIN"), ("clone", "ENOMEM"), ("stack-mmap", "ENOMEM")] {
-                        all.push(Case { build: build.to_string(), strace: true, fault: Some(Fault { target: t.into(), index: idx, errno: e.into() }), batches: vec![b.clone()] });
+                        all.push(Case { build: build.to_string(), strace: true, fault: Some(Fault { target: t.into(), index: idx, errno: e.into(), persistent: false }), batches: vec![b.clone()] });
+                        // the same failure, staying (a limit that does not go away): from the first spawn, from the middle one
+                        if b.specs.len() <= 4 && (idx == 0 || idx == b.specs.len() as u32 / 2) {
+                            all.push(Case { build: build.to_string(), strace: true, fault: Some(Fault { target: t.into(), index: idx, errno: e.into(), persistent: true }), batches: vec![b.clone()] });
+                        }
                     }
                 }
             }
@@ -1152,7 +1189,7 @@ pub fn run(ctx: &Ctx) {
             }
         }
         if complete {
-            ctx.note_exhaustive(format!("every stack mmap and every clone (EAGAIN, ENOMEM) of 4 fixed batches (1, 4, 6, 8 threads) x {} builds failed once by strace injection: {} cases", builds.len(), all.len()));
+            ctx.note_exhaustive(format!("every stack mmap and every clone (EAGAIN, ENOMEM) of 4 fixed batches (1, 4, 6, 8 threads) x {} builds failed once by strace injection, and on the 1- and 4-thread batches failed for good from the first / the middle spawn on: {} cases", builds.len(), all.len()));
         }
     }
     ctx.extra("threads_created", serde_json::json!(env.threads.get()));
